@@ -488,8 +488,62 @@ func checkC12(c *Ctx, r *Report) {
 			chosen = extractOf(call, 0)
 		}
 	})
-	args := callArgs(&m.OpenCall.Call)
+	// the request: the literal handed to the call that performs the Open Session exchange — the
+	// constructor's own call, or, when that is a wrapper spliced into the view, the innermost
+	// call returning the response
+	openReq := m.OpenCall
+	{
+		osr := c.Named("pkg/ipmi", "OpenSessionRsp")
+		reqT := c.Named("pkg/ipmi", "OpenSessionReq")
+		viewInstrs(m.Fn, func(in ssa.Instruction) {
+			call, ok := in.(*ssa.Call)
+			if !ok || !resultPtrTo(call, osr) {
+				return
+			}
+			as := callArgs(&call.Call)
+			if len(as) == 0 {
+				return
+			}
+			if al, isAl := as[len(as)-1].(*ssa.Alloc); isAl && isPtrTo(al.Type(), reqT) {
+				openReq = call
+			}
+		})
+	}
+	args := callArgs(&openReq.Call)
 	reqLit, _ := args[len(args)-1].(*ssa.Alloc)
+	// a field of the chosen suite, read where the request is built (possibly in a helper that
+	// received the suite as an argument)
+	isChosenField := func(v ssa.Value, field string) bool {
+		if fieldLoadOf(v, chosen, field) {
+			return true
+		}
+		ld, ok := v.(*ssa.UnOp)
+		if !ok || ld.Op != token.MUL || chosen == nil {
+			return false
+		}
+		aps := viewAPs(m.Fn, ld.X)
+		if len(aps) == 0 {
+			return false
+		}
+		// what the chosen suite itself denotes in the view (the selector may be spliced too)
+		caps := viewAPs(m.Fn, chosen)
+		for _, a := range aps {
+			if a.Root == chosen && a.SelString() == field {
+				continue
+			}
+			match := false
+			for _, ca := range caps {
+				want := strings.TrimPrefix(ca.SelString()+"."+field, ".")
+				if a.Root == ca.Root && a.SelString() == want {
+					match = true
+				}
+			}
+			if !match {
+				return false
+			}
+		}
+		return true
+	}
 	algs := []struct{ payload, field string }{
 		{"AuthenticationPayload", "AuthenticationAlgorithm"},
 		{"IntegrityPayload", "IntegrityAlgorithm"},
@@ -505,7 +559,7 @@ func checkC12(c *Ctx, r *Report) {
 			v := f[a.payload+".Algorithm"]
 			proposed[a.payload] = v
 			_, wild := f[a.payload+".Wildcard"]
-			r.Check(v != nil && fieldLoadOf(v, chosen, a.field) && !wild, name+"|propose "+a.payload, reqLit.Pos(), "← chosen."+a.field, "the "+a.payload+" proposed is not the chosen suite's "+a.field)
+			r.Check(v != nil && isChosenField(v, a.field) && !wild, name+"|propose "+a.payload, reqLit.Pos(), "← chosen."+a.field, "the "+a.payload+" proposed is not the chosen suite's "+a.field)
 		}
 	}
 	// confirmation must-check
